@@ -3,6 +3,7 @@
 package corerad
 
 import (
+	"fmt"
 	"context"
 	"math/rand"
 	"net/netip"
@@ -30,6 +31,7 @@ func reqAddr(host int) netip.Addr {
 
 // runSched drives the real (*Advertiser).schedule in virtual time and records every write.
 func runSched(t *testing.T, out *vfh.Out, op string, unicastOnly bool, evs []schedEvent, stop time.Duration) {
+	out.Pending(fmt.Sprintf("runSched %s unicastOnly=%v events=%+v stop=%v", op, unicastOnly, evs, stop))
 	synctest.Test(t, func(t *testing.T) {
 		v := newVfAdv(vfAdvConfig(200*time.Second, 600*time.Second, unicastOnly, 1800*time.Second), false, nil)
 		ctx, cancel := context.WithCancel(context.Background())
@@ -190,6 +192,7 @@ func advMessage(e advEvent) ndp.Message {
 var advTypeNames = []string{"router solicitation", "router advertisement", "neighbor solicitation", "neighbor advertisement"}
 
 func runAdv(t *testing.T, out *vfh.Out, op string, min, max time.Duration, unicastOnly bool, evs []advEvent, stop time.Duration, failWrite int) {
+	out.Pending(fmt.Sprintf("runAdv %s min=%v max=%v unicastOnly=%v events=%+v stop=%v failWrite=%d", op, min, max, unicastOnly, evs, stop, failWrite))
 	synctest.Test(t, func(t *testing.T) {
 		v := newVfAdv(vfAdvConfig(min, max, unicastOnly, 1800*time.Second), false, nil)
 		if failWrite >= 0 {
